@@ -184,8 +184,30 @@ def run(c):
         reqs[rid] = {"method": "POST", "target": "/machine?comp=health&n=%d" % i, "blen": 77, "seed": 8000 + i, "exempt": False, "key": cur}
     c.extra["requests_with_late_key_reply"] = 2 if not thorough else 6
     # own calls through the real clients
+    own_key = {}
     for i, kind in enumerate(["goalstate", "sharedconfig", "imds"]):
         steps.append({"op": "own_call", "kind": kind, "tag": "own%d" % i})
+        own_key["own%d" % i] = cur
+    # an own call races with the key keeper latching another key: the first key lookup of the call passes, any FURTHER
+    # lookup the same call makes is held at the H4 gate until the new key is latched.  Whatever the call reads, the host must
+    # be able to verify it: the MAC is valid under the key the header NAMES (either key is acceptable, a mix is not)
+    all_keys = {}
+    race_ids = set()
+    for i, kind in enumerate(["imds", "goalstate", "sharedconfig"] * (1 if not thorough else 4)):
+        nk = ("%08x-aaaa-4bbb-8ccc-%012x" % (0xA000 + i, i), "%064X" % rnd.getrandbits(256))
+        tag = "ownrace%d" % i
+        steps += [{"op": "arm", "label": "key_keeper.get_key", "skip": 1},
+                  {"op": "parallel", "branches": [
+                      [{"op": "own_call", "kind": kind, "tag": tag}],
+                      [{"op": "wait_arrived", "label": "key_keeper.get_key", "n": 2, "timeout_ms": 400},
+                       {"op": "set_key", "guid": nk[0], "key": nk[1]},
+                       {"op": "release", "label": "key_keeper.get_key"}, {"op": "release", "label": "key_keeper.get_key"},
+                       {"op": "sleep", "ms": 100}, {"op": "disarm", "label": "key_keeper.get_key"}]]}]
+        all_keys[cur[0]] = cur[1]
+        all_keys[nk[0]] = nk[1]
+        cur = nk
+        race_ids.add(tag)
+    c.extra["own_calls_racing_a_key_change"] = len(race_ids)
     # the builder route with a body, over the wire (1 byte, 83 bytes, the low limit)
     own_bodies = {}
     for i, n_ in enumerate([1, 83, 102400]):
@@ -253,7 +275,7 @@ def run(c):
             body, exempt = e["body"], False
         else:
             body, exempt = b"", False
-        guid, key = reqs[rid]["key"] if rid in reqs else e.get("key", cur)   # own calls: the key latched last
+        guid, key = reqs[rid]["key"] if rid in reqs else e.get("key", own_key.get(rid, cur))   # own calls: the key latched then
         hs = e["headers"]
         auths = [v for n, v in hs if n.lower() == AUTH]
         if exempt:
@@ -268,6 +290,8 @@ def run(c):
             kinds.setdefault("authorization-header-count-%d" % len(auths), []).append((rid, e))
             continue
         a = canon.parse_auth(auths[0])
+        if rid in race_ids and a and a["guid"] in all_keys:
+            guid, key = a["guid"], all_keys[a["guid"]]          # the key the header names
         if not a or a["scheme"] != "Azure-HMAC-SHA256" or a["guid"] != guid:
             kinds.setdefault("bad-scheme-or-key-id", []).append((rid, e))
             continue
